@@ -42,7 +42,10 @@ def stepLine (st : DState) (line : String) : DState × String :=
               | none =>
                 match metaCmd st.metaDead cmd args with
                 | some (d, out) => ({ st with metaDead := d }, out)
-                | none => (st, "bad-op")
+                | none =>
+                  match idCmd cmd with
+                  | some out => (st, out)
+                  | none => (st, "bad-op")
 
 partial def loop (h : IO.FS.Stream) (out : IO.FS.Stream) (st : DState) : IO Unit := do
   let line ← h.getLine
